@@ -68,9 +68,11 @@ func (d wDest) Write(p []byte) (int, error) { return d.w.Write(p) }
 type rfDest struct {
 	stored       []byte
 	fail, failed bool
+	calls        int
 }
 
 func (d *rfDest) ReadFrom(r io.Reader) (int64, error) {
+	d.calls++
 	buf := make([]byte, 7)
 	var total int64
 	for guard := 0; guard < 1<<24; guard++ {
@@ -95,9 +97,11 @@ func (d *rfDest) ReadFrom(r io.Reader) (int64, error) {
 type buDest struct {
 	stored       []byte
 	fail, failed bool
+	calls        int
 }
 
 func (d *buDest) UnmarshalBinary(b []byte) error {
+	d.calls++
 	if d.fail {
 		d.failed = true
 		return errInjected
@@ -220,6 +224,7 @@ type dest struct {
 	csvw     *csv.Writer
 	typedNil bool
 	faulted  func() bool // a fallible collaborator (CSVWriter, ReaderFrom, BinaryUnmarshaler) delivered its error
+	calls    func() int  // calls of the destination's own ReadFrom / UnmarshalBinary
 }
 
 func preTable(n, cp int) [][]string {
@@ -291,10 +296,12 @@ func mkDest(kind string, preLen, preCap int, preText string, preNil bool, o Scri
 		x := &rfDest{fail: o.Fault}
 		d.v, d.bytes = x, func() []byte { return x.stored }
 		d.faulted = func() bool { return x.failed }
+		d.calls = func() int { return x.calls }
 	case "binunm":
 		x := &buDest{fail: o.Fault}
 		d.v, d.bytes = x, func() []byte { return x.stored }
 		d.faulted = func() bool { return x.failed }
+		d.calls = func() int { return x.calls }
 	case "*[][]string":
 		if preNil {
 			d.v = (*[][]string)(nil)
@@ -404,6 +411,7 @@ func mkDest(kind string, preLen, preCap int, preText string, preNil bool, o Scri
 // source is one source handed to Produce.
 type source struct {
 	v       interface{}
+	csvr    *csv.Reader // the caller's own reader object (kind *csv.Reader)
 	rd      *sReader
 	wt      *wtSrc
 	faulted func() bool // a fallible collaborator (CSVReader, BinaryMarshaler) delivered its error
@@ -441,7 +449,8 @@ func mkSource(kind string, text []byte, table [][]string, o Script) (s source, o
 	switch kind {
 	case "*csv.Reader":
 		s.rd = newReader(text, o)
-		s.v = csv.NewReader(s.rd)
+		s.csvr = csv.NewReader(s.rd)
+		s.v = s.csvr
 	case "csvreader":
 		x := &recReader{records: table, sc: o}
 		s.v, s.faulted = x, func() bool { return x.failed }
